@@ -44,7 +44,21 @@ func extractPrivKey(kh *keyset.Handle) (interface{}, error) {
 		return nil, errors.New("extractPrivKey: invalid private key")
 	}
 
+	if len(ks.Key) == 0 {
+		return nil, errors.New("extractPrivKey: empty keyset")
+	}
+
+	// use the primary key of the keyset: it is the key whose public part ExportPubKeyBytes hands out (after a key
+	// rotation it is no longer the first key of the set).
 	primaryKey := ks.Key[0]
+
+	for _, key := range ks.Key {
+		if key.KeyId == ks.PrimaryKeyId {
+			primaryKey = key
+
+			break
+		}
+	}
 
 	switch primaryKey.KeyData.TypeUrl {
 	case nistPECDHKWPrivateKeyTypeURL:
